@@ -244,8 +244,23 @@ def r5_relink(ctx, res):
             if v.stmt.update_set_columns() != ['provider_rowid']:
                 res.find(key + ':set', s.loc, f'UPDATE lexicon_dependencies sets {v.stmt.update_set_columns()}')
             preds = sorted(p.replace(' ', '') for p in v.stmt.where_predicates(0))
-            if preds != ['provider_id=?', 'provider_version=?']:
+            import re as _re
+            cols = sorted(_re.sub(r'=(\?|:\w+)$', '', p) for p in preds)
+            if cols != ['provider_id', 'provider_version'] or not all(_re.search(r'=(\?|:\w+)$', p) for p in preds):
                 res.find(key + ':where', s.loc, f're-link UPDATE matches on {preds}; expected provider_id and provider_version')
+            if v.params[0] == 'named' and isinstance(s.node.args[1] if len(s.node.args) > 1 else None, ast.Dict):
+                # named parameters: {<name in SET>: new rowid, <name for provider_id>: lexicon['id'], <... version>: lexicon['version']}
+                d = s.node.args[1]
+                val = {k.value: norm(x) for k, x in zip(d.keys, d.values) if isinstance(k, ast.Constant)}
+                setn = _re.search(r'provider_rowid\s*=\s*:(\w+)', ' '.join(v.sql.split()))
+                by = {}
+                for p in preds:
+                    mm = _re.match(r'(\w+)=:(\w+)$', p)
+                    if mm:
+                        by[mm.group(1)] = mm.group(2)
+                got = [val.get(setn.group(1)) if setn else None, val.get(by.get('provider_id')), val.get(by.get('provider_version'))]
+                if got[1:] != ["lexicon['id']", "lexicon['version']"] or got[0] is None or not _is_new_rowid(il, got[0]):
+                    res.find(key + ':params', s.loc, f're-link UPDATE binds {got}; expected (new lexicon rowid, lexicon id, lexicon version)')
             if v.params[0] == 'pos':
                 got = [t for _, t in v.params[1]]
                 want_tail = ["lexicon['id']", "lexicon['version']"]
